@@ -232,6 +232,8 @@ class Check(DiffCheck):
     id = 'C01'
     # lockset engine (lib/lockset.py): mutex slow path enqueues with splock held (deferred unlock), hand-off under splock + head's thread.lock
     lockset_rules = {10, 11, 12, 13, 14, 15, 20, 26}
+    # E4S (lib/e4s.py): controlled 2-vCPU schedule search with this property's oracle (preemption at every lock boundary)
+    e4s_props = {'C01'}
     needs_libphoton = True
     coq_dirs = ['Base', 'C04', 'Sched', 'E3', 'C01']
     # ownership / lock-result / not-stuck development: C01_Eff (case analysis + effect lemmas), C01_Cls (own_inv),
